@@ -106,3 +106,8 @@ def insert_sql(table, rows):
 def seqs(alphabet, maxlen, minlen=0):
     for n in range(minlen, maxlen + 1):
         yield from itertools.product(alphabet, repeat=n)
+
+
+def srt(rows):
+    """rows sorted with NULL smallest (plain sorted() cannot compare None)"""
+    return sorted(rows, key=lambda r: tuple(key_nullfirst(v) for v in r))
